@@ -251,6 +251,23 @@ def component_cases(ctx: Ctx):
                 if lagr.near_threshold(allnodes, xf):
                     continue
                 pred = comp.predict({v: np.array(x[k]) for k, v in enumerate(names)}, index_set=mode)
+                if rng.random() < 0.25:
+                    # the same prediction with the per-index interpolations handed to an executor that completes them in a random order
+                    import c15
+                    sr = rng.getrandbits(30)
+                    import random as _random
+                    ex = c15.SchedExecutor(lambda m, _r=_random.Random(sr): _r.sample(range(m), m))
+                    saved = c15.install_wait(ex)
+                    try:
+                        pred_ex = comp.predict({v: np.array(x[k]) for k, v in enumerate(names)}, index_set=mode, executor=ex)
+                    finally:
+                        c15.restore_wait(saved)
+                    ctx.count('executor_predictions')
+                    for j in range(ny):
+                        a_, b_ = float(np.ravel(pred[f'y{j}'])[0]), float(np.ravel(pred_ex[f'y{j}'])[0])
+                        if not (a_ == b_ or (a_ != a_ and b_ != b_)):
+                            ctx.violate('C05:executor-prediction-differs', f'{mode}-mode prediction of y{j} at {x}: {b_} through an executor (random completion '
+                                        f'order), {a_} serially', {**case0, 'mode': mode, 'x': x})
                 for j in range(ny):
                     lines.append('misc_predict ' + enc([terms_by_out[j], [q(v) for v in x]]))
                     meta.append(({**case0, 'mode': mode, 'x': x, 'output': j}, float(np.ravel(pred[f'y{j}'])[0]),
